@@ -128,6 +128,23 @@ def check_infer(case, ctx: Ctx):
     want = [e[-1] for e in bt["edges"]]
     check([str(x) for x in sizes.index] == list(bt["names"]) and [int(v) for v in sizes.values] == want,
           lambda: f"get_chromsizes = {dict(sizes)} want {dict(zip(bt['names'], want))}")
+    if tb is not None and tb >= 2 and any(len(e) >= 3 for e in bt["edges"]):
+        # a table DERIVED from a binnify() frame by ordinary pandas operations (slices of the frame, concatenated, one inner
+        # bin cut in two): it is no longer a tiling of width tb and must not be reported as one
+        import pandas as pd
+
+        fr = cooler.util.binnify(gen.chromsizes_series(bt), tb)
+        ci = next(t for t, e in enumerate(bt["edges"]) if len(e) >= 3)
+        k = sum(len(e) - 1 for e in bt["edges"][:ci])          # first bin of that chromosome: an inner bin, full width
+        two = fr.iloc[[k, k]].copy()
+        two.iloc[0, two.columns.get_loc("end")] = int(fr["start"].iloc[k]) + 1
+        two.iloc[1, two.columns.get_loc("start")] = int(fr["start"].iloc[k]) + 1
+        derived = pd.concat([fr.iloc[:k], two, fr.iloc[k + 1:]]).reset_index(drop=True)
+        db = call("get_binsize(table derived from a binnify() frame)", cooler.util.get_binsize, derived)
+        ed = [list(e) for e in bt["edges"]]
+        ed[ci] = [ed[ci][0], ed[ci][0] + 1, *ed[ci][1:]]
+        check(db is None or model.tiles({"names": bt["names"], "edges": ed}, int(db)),
+              lambda: f"get_binsize reports {db} for a table derived from binnify(..., {tb}) whose first bin of {bt['names'][ci]!r} was cut in two: {ed}")
     if case.get("subset_seed") is not None and len(bt["names"]) >= 2:
         # a table of PART of the genome that keeps the full categorical dtype (what bins[bins.chrom.isin(...)] or
         # Cooler.bins().fetch(chrom) hand over): lengths of the chromosomes present, in order, nothing else
@@ -332,6 +349,13 @@ def check_cooler(case, ctx: Ctx):
         clr = cooler.Cooler(uri)
         b = clr.binsize
         info = clr.info
+        if case.get("prior") is not None:
+            # the object that predates the re-creation reports what the file holds NOW
+            # (the metadata QUERY re-reads the file; attributes such as .binsize are read once at construction by design
+            # and are not judged here)
+            ob, oi = old.binsize, old.info
+            check(oi.get("bin-size") == info.get("bin-size") and oi.get("bin-type") == info.get("bin-type") and oi.get("nbins") == info.get("nbins"),
+                  lambda: f"a Cooler object created before the collection was replaced reports info {oi.get('bin-size')}, {oi.get('bin-type')}, nbins {oi.get('nbins')}; the file now holds {b} / {info.get('bin-size')}, {info.get('bin-type')}, nbins {info.get('nbins')}")
         # the long listing reports a bin size per collection: the true one, or <variable>
         rc, out_txt, exc = run_cli(["ls", "-l", path])
         check(rc == 0 and exc is None, f"cooler ls -l failed: exit {rc} {exc!r}")
